@@ -77,7 +77,7 @@ class Build:
         self.wall = 0.0
 
     def built(self, rel: str) -> bool:
-        vo = THEORIES / (rel[:-2] + ".vo")
+        vo = COQ / (rel[:-2] + ".vo")
         return rel not in self.failed and vo.exists()
 
 
@@ -211,7 +211,7 @@ def audit_property(prop: str) -> dict[str, Any]:
     # every theorem must be closed by `exact`
     for m in re.finditer(r"Proof\.(.*?)(Qed|Defined)\.", src, re.S):
         body = m.group(1).strip()
-        if not re.fullmatch(r"(intros[^.]*\.\s*)?(exact|apply)\s+[^.]*(\.[A-Za-z_][\w.]*)*\s*\.", body, re.S):
+        if not re.fullmatch(r"(intros[^.;]*\.\s*)?exact\b[^;]*\.", body, re.S):
             res["problems"].append(f"{prop}: proof body is not a single exact/apply: {body[:60]!r}")
     return res
 
@@ -348,11 +348,15 @@ def eval_terms(tag: str, imports: str, defs: str, terms: Sequence[str]) -> list[
 
 
 def known_findings(prop: str) -> list[dict[str, Any]]:
-    f = VERIF / "known_findings.json"
-    if not f.exists():
-        return []
-    return [e for e in json.loads(f.read_text())["findings"]
-            if e["property"] == prop and e["status"] == "known"]
+    """known_findings.json plus known_findings.d/*.json (same format), committed
+    by hand, never written at run time."""
+    out: list[dict[str, Any]] = []
+    files = [VERIF / "known_findings.json"] + sorted((VERIF / "known_findings.d").glob("*.json"))
+    for f in files:
+        if f.exists():
+            out += [e for e in json.loads(f.read_text())["findings"]
+                    if e["property"] == prop and e["status"] == "known"]
+    return out
 
 
 class Check:
@@ -454,3 +458,46 @@ def proof_stage(chk: Check, build: Build, needed: Sequence[str]) -> bool:
     chk.coverage["broken_obligations"] = [
         (b + ": " + build.failed.get(b, ""))[:600] for b in broken]
     return not broken
+
+
+def correspond(chk: Check, tag: str, imports: str, defs: str,
+               items: Sequence[dict[str, Any]], *, what: str, shard: int = 250) -> dict[str, Any]:
+    """Run the model on the cases and report disagreements.
+
+    items: dicts with
+      "case"   Coq term : bool, true iff model outcome == implementation outcome
+      "model"  Coq term printed with vm_compute into the replay of a disagreement
+      "replay" JSON-able description of the input and the implementation outcome
+    A disagreement by itself is reported as a VIOLATION ending in
+    no-failing-input-found (the direct oracle of the caller has had its chance
+    before: call this after the oracle loop), unless an oracle violation was
+    already filed in this run."""
+    rc = run_cases(tag, imports, defs, [it["case"] for it in items], shard=shard)
+    for e in rc["errors"]:
+        chk.notes.append("coq case error: " + e[:400])
+    if rc["bad"]:
+        idx = rc["bad"][:3]
+        outs = eval_terms(tag, imports, defs, [items[i]["model"] for i in idx])
+        for i, o in zip(idx, outs):
+            chk.notes.append(f"{what}: model/implementation disagree on case #{i}: {json.dumps(items[i]['replay'], default=str)[:300]} model={o[:300]}")
+        if not chk.violations:
+            i, o = idx[0], outs[0]
+            chk.finding("correspondence:" + what,
+                        f"model and implementation disagree ({len(rc['bad'])} of {rc['n']} cases); no direct property failure found",
+                        {"case": items[i]["replay"], "model": o, "broken": f"correspondence {what}",
+                         "disagreeing_cases": rc["bad"][:50]}, no_input=True)
+    elif rc["errors"] and not chk.violations:
+        chk.finding("correspondence:" + what + ":build", "generated case files did not evaluate",
+                    {"errors": rc["errors"][:3], "broken": f"correspondence {what} (coqc on generated cases)"},
+                    no_input=True)
+    chk.coverage["model_cases"] = chk.coverage.get("model_cases", 0) + rc["n"]
+    chk.coverage["model_disagreements"] = chk.coverage.get("model_disagreements", 0) + len(rc["bad"])
+    chk.coverage.setdefault("correspondence_wall_s", {})[what] = round(rc["wall"], 1)
+    return rc
+
+
+def proofs_verdict(chk: Check, proofs_ok: bool) -> None:
+    """Call last: a broken proof obligation with no failing input found."""
+    if not proofs_ok and not chk.violations:
+        chk.finding("proof:" + chk.prop, "a proof obligation no longer checks",
+                    {"broken": chk.coverage.get("broken_obligations")}, no_input=True)
